@@ -43,8 +43,9 @@ func encodeWire(v Codec) ([]byte, error) {
 }
 
 type oneShot struct {
-	b   []byte
-	off int
+	b           []byte
+	off         int
+	eofWithData bool // the read delivering the last byte also returns io.EOF
 }
 
 func (r *oneShot) Read(p []byte) (int, error) {
@@ -53,7 +54,42 @@ func (r *oneShot) Read(p []byte) (int, error) {
 	}
 	n := copy(p, r.b[r.off:])
 	r.off += n
+	if r.eofWithData && r.off == len(r.b) {
+		return n, io.EOF
+	}
 	return n, nil
+}
+
+// eofReaderAt returns io.EOF together with a read ending at the end of input.
+type eofReaderAt struct{ b []byte }
+
+func (r *eofReaderAt) ReadAt(p []byte, off int64) (int, error) {
+	if off < 0 || off >= int64(len(r.b)) {
+		return 0, io.EOF
+	}
+	n := copy(p, r.b[off:])
+	if n < len(p) || int(off)+n == len(r.b) {
+		return n, io.EOF
+	}
+	return n, nil
+}
+
+func decodeStreamEOF(t *Type, b []byte) (Codec, error) {
+	x := t.Fresh()
+	sr := binary.Default.Reader(&oneShot{b: b, eofWithData: true})
+	err := x.Decode(sr)
+	sr.Close()
+	return x, err
+}
+
+func decodeWireEOF(t *Type, b []byte) (Codec, error) {
+	w, err := binary.Default.Decode(&eofReaderAt{b: b}, wire.TStruct)
+	if err != nil {
+		return nil, err
+	}
+	x := t.Fresh()
+	err = x.FromWire(w)
+	return x, err
 }
 
 // boundedSeeker gives up (assume(false): the path is outside this check)
@@ -151,6 +187,22 @@ func H01() {
 	} else {
 		verifAssert(Eq(t.Tree(x), t.Tree(y)) == 1, "decoders-agree")
 	}
+	// sources that return io.EOF together with the last bytes
+	x2, ex2 := decodeStreamEOF(t, ref)
+	verifAssert(ex2 == nil, "reference-encoding-decodes-stream-eof-with-data")
+	y2, ey2 := decodeWireEOF(t, ref)
+	verifAssert(ey2 == nil, "reference-encoding-decodes-wire-eof-with-data")
+	verifAssert(Eq(t.Tree(x2), t.Tree(x)) == 1, "stream-eof-with-data-same-value")
+	verifAssert(Eq(t.Tree(y2), t.Tree(y)) == 1, "wire-eof-with-data-same-value")
+	verifReached("end")
+}
+
+// HConst: every generated constant of a primitive type equals its IDL literal.
+func HConst() {
+	for _, c := range consts {
+		verifAssert(c.ok(), "constant-equals-literal:"+c.name)
+	}
+	verifAssert(len(consts) > 0, "constants-present")
 	verifReached("end")
 }
 
@@ -275,7 +327,9 @@ func H04c() {
 // ones, both serializers fail or both succeed with equal logical output.
 func H04v() {
 	t := curType()
+	StrLen = verifParam("strlen")
 	v := t.Any(verifParam("depth"))
+	StrLen = 0
 	b1, e1 := encodeStream(v)
 	b2, e2 := encodeWire(v)
 	verifObserveBool("encodes", e1 == nil)
@@ -285,6 +339,10 @@ func H04v() {
 		n2, p2, ok2 := SpecDecode(b2, 0, wire.TStruct, 0)
 		verifAssert(ok1 && ok2 && p1 == len(b1) && p2 == len(b2), "outputs-wellformed")
 		verifAssert(Eq(n1, n2) == 1, "serializers-agree-on-value")
+		if !t.ComplexDefault {
+			t.Defaults(v)
+			verifAssert(Eq(n1, t.Tree(v)) == 1, "serializers-output-is-the-value")
+		}
 	}
 	verifReached("end")
 }
@@ -428,6 +486,35 @@ func H05() {
 		} else if t.FieldRequired[fi] {
 			expectFail = true
 		}
+	case 4: // a present container field re-encoded as the same kind of container with another element type
+		verifAssume(len(tree.Kids) > 0)
+		pos := verifChoice(len(tree.Kids))
+		fi := fieldIndex(t, tree.IDs[pos])
+		old := tree.Kids[pos]
+		verifAssume(old.T == wire.TList || old.T == wire.TSet || old.T == wire.TMap)
+		var repl *Node
+		switch old.T {
+		case wire.TList:
+			repl = List(wire.TI64)
+			repl.Add(Leaf(wire.TI64, verifU64()))
+			verifAssume(old.KT != wire.TI64)
+		case wire.TSet:
+			repl = Set(wire.TI64)
+			repl.Add(Leaf(wire.TI64, verifU64()))
+			verifAssume(old.KT != wire.TI64)
+		default:
+			repl = Map(wire.TI64, wire.TI64)
+			repl.AddKV(Leaf(wire.TI64, verifU64()), Leaf(wire.TI64, verifU64()))
+			verifAssume(old.KT != wire.TI64)
+		}
+		tree.Kids[pos] = repl
+		// both real paths read such a field as absent (nil container, contents
+		// skipped unvalidated); a required one is then missing
+		if !t.Clear(v, fi) {
+			expectFail = true
+		} else if t.FieldRequired[fi] && t.FieldTypes[fi] != wire.TList {
+			expectFail = true
+		}
 	case 3: // fields reordered (reversed)
 		for i, j := 0, len(tree.Kids)-1; i < j; i, j = i+1, j-1 {
 			tree.Kids[i], tree.Kids[j] = tree.Kids[j], tree.Kids[i]
@@ -441,6 +528,17 @@ func H05() {
 	verifObserveBytes("evolved", b)
 	x, ex := decodeStream(t, b, false)
 	y, ey := decodeWire(t, b)
+	if verifParam("chunk") > 0 {
+		// the same from a stream whose first reads are arbitrarily segmented
+		z := t.Fresh()
+		sr := binary.Default.Reader(&chunky{b: b, zeros: 1, free: verifParam("chunk")})
+		ez := z.Decode(sr)
+		sr.Close()
+		verifAssert((ez == nil) == (ex == nil), "segmented-stream-agrees-on-acceptance")
+		if ez == nil && ex == nil {
+			verifAssert(Eq(t.Tree(z), t.Tree(x)) == 1, "segmented-stream-same-value")
+		}
+	}
 	verifObserveBool("fails", expectFail)
 	if expectFail {
 		verifAssert(ex != nil, "missing-required-rejected-stream")
